@@ -164,6 +164,15 @@ func runPlan(out *c.Out, plan history.Plan) {
 		out.NoteN(s, n)
 	}
 	out.NoteN("blocks", len(h.Blocks))
+	if plan.Name == "F2-cdp-debt-split" && h.Stopped == "" {
+		// regression guard: the scenario is only meaningful if the block liquidation really took place
+		last := obs[int64(len(h.Blocks))]
+		if last == nil || last.cdps != 0 || last.auctions < 2 {
+			out.Violation(fmt.Sprintf("C02 scenario F2 did not reach the liquidation: cdps=%v auctions=%v (generator or parameters drifted)", last != nil && last.cdps != 0, last != nil && last.auctions >= 2))
+		} else {
+			out.Note("F2-liquidated-without-panic")
+		}
+	}
 	out.NoteN("invariant-routes-per-block", routesSeen)
 	class := plan.Name
 	if strings.HasPrefix(class, "random-") {
